@@ -80,7 +80,8 @@ MonCall(M, c) ==
                   ELSE Fail(M, "attempt cancelled without a winning connection")
            ELSE M
     [] c.c = "accept" ->
-         IF c.cid \notin DOMAIN M.cand THEN Fail(M, "accept of unknown connection")
+         IF "ok" \in DOMAIN c /\ c.ok = FALSE THEN M      \* the transport refused the call: nothing is kept
+         ELSE IF c.cid \notin DOMAIN M.cand THEN Fail(M, "accept of unknown connection")
          ELSE LET x == [cid |-> c.cid, peer |-> M.cand[c.cid].peer, dir |-> M.cand[c.cid].dir]
                   M1 == [M EXCEPT !.acc = @ \cup {x}, !.accepted = TRUE] IN
               \* C06 caps, evaluated on what the manager keeps
@@ -142,7 +143,7 @@ MonEnd(M, ret, panic) ==
   ELSE IF s.a = "probe" /\ ~Tainted(M, s.p) /\ Below(Cardinality(AccOf(M, "out")), M.maxOut) /\ ~M.newAtt
     THEN Fail(M, "wedge: peer without connection cannot be dialed again")
   \* C06: below the limits a connection from a peer we are not connected to is accepted
-  ELSE IF s.a \in {"established", "in_est"} /\ ~M.accepted /\ ~s.mismatch
+  ELSE IF s.a \in {"established", "in_est"} /\ ~M.accepted /\ ~s.mismatch /\ ~("lost" \in DOMAIN s /\ s.lost)
           /\ AccPeer(M, s.p) = {}
           /\ (s.dir = "in" => Below(Cardinality(AccOf(M, "in")), M.maxIn))
           /\ (s.dir = "out" => Below(Cardinality(AccOf(M, "out")), M.maxOut))
